@@ -447,7 +447,12 @@ def gen_periodic(rng):
         p = rng.choice([1, 2, 3, 4, 6, 10])
         t0 = rng.randint(1, 12)
         slot = k if rng.random() < 0.5 else None
-        setup.append(("se", ("a", t0), 0, k, 100 + k, slot, p))
+        if rng.random() < 0.5:
+            # the same series through an EventSource (source k is connected to input k): its key is only
+            # checked by the scheduler, not a second time inside the model
+            setup.append(("ss", ("a", t0), k, 100 + k, slot, p))
+        else:
+            setup.append(("se", ("a", t0), 0, k, 100 + k, slot, p))
         if slot is not None and rng.random() < 0.6:
             cancels.append((rng.randint(2, 30), slot))
     if rng.random() < 0.5:
@@ -563,7 +568,8 @@ def gen_deadlock(rng):
     """C06 family: query loop-backs (direct, transitive, in sub-models), saturating event loops that
     deadlock deterministically (a model that sends itself capacity+1 events from one handler), orphan
     and dropped mailboxes."""
-    kind_ = rng.choice(["self_query", "transitive_query", "sub_query", "self_saturate", "orphan", "orphan_query", "clean"])
+    kind_ = rng.choice(["self_query", "transitive_query", "sub_query", "self_saturate", "orphan", "orphan_query", "clean",
+                        "mixed_query", "mixed_saturate"])
     cap = rng.choice([1, 2, 3])
     mk = lambda **kw: dict({"cap": cap, "handlers": [[], [], []], "repliers": [([], 1), ([], 2)], "outs": [], "reqs": []}, **kw)
     models = [mk(), mk(), mk()]
@@ -593,6 +599,19 @@ def gen_deadlock(rng):
     elif kind_ == "orphan_query":
         models[2]["place"] = 1
         roots = [("pq", 2, 0, 5)]
+    elif kind_ == "mixed_query":
+        # a stall with BOTH messages lost in a never-added mailbox AND a registered model stuck on its own
+        # query: the report must be Deadlock (listing the registered model), not MessageLoss
+        models[2]["place"] = 1
+        models[0]["outs"] = [[("all", 0, ("m", 2, 0))]]
+        models[0]["reqs"] = [[("all", 0, 0, 0, 0)]]
+        models[0]["handlers"][1] = [("snd", 0, "in")] * rng.randint(1, cap) + [("qry", 0, "in")]
+        roots = [("pe", 0, 1, 5)]
+    elif kind_ == "mixed_saturate":
+        models[2]["place"] = 1
+        models[0]["outs"] = [[("all", 0, ("m", 2, 0))], [("all", 0, ("m", 0, 0))]]
+        models[0]["handlers"][1] = [("snd", 0, "in")] * rng.randint(1, cap) + [("snd", 1, "in")] * (cap + 1)
+        roots = [("pe", 0, 1, 5)]
     else:
         models[0]["outs"] = [[("all", 0, ("m", 1, 0)), ("even", 1, ("m", 2, 0))]]
         models[0]["handlers"][1] = [("snd", 0, "in"), ("snd", 0, ("ip", 1))]
